@@ -250,3 +250,18 @@ Proof.
        Datatypes.app Datatypes.length List.rev Nat.eqb FUEL_SEM fst snd];
     rewrite ?T; reflexivity.
 Qed.
+
+(* DrainFilter's destructor restores the length old_len - del (del counts what was removed, including
+   an element whose predicate call is in flight: VecModel.df_drain) *)
+Lemma src_vec_drain_filter_drop_ok old_len del : del <= old_len ->
+  call_fn src_fns [("self", VRec [("old_len", VN old_len); ("del", VN del)])] "vec_drain_filter_drop_new_len" []
+  = Ret (VN (old_len - del)).
+Proof.
+  intros H. assert (T : (del <=? old_len) = true) by (apply N.leb_le; exact H).
+  unfold call_fn.
+  cbv beta iota zeta delta
+      [call_fn eval lookup bind finish meth0 meth1 arith fn_params fn_body src_fns
+       String.eqb Ascii.eqb Bool.eqb List.app List.combine List.length
+       Datatypes.app Datatypes.length List.rev Nat.eqb FUEL_SEM fst snd].
+  rewrite T. reflexivity.
+Qed.
